@@ -92,6 +92,7 @@ type actor struct {
 	cancel  context.CancelFunc
 	ctxDead bool
 	opIdx   int
+	pubs    int64 // commits this actor's goroutine has published
 }
 
 const (
@@ -144,6 +145,7 @@ func NewController(w *World, scripts [][]Op, ch Chooser) *Controller {
 		c.actors = append(c.actors, &actor{id: i + 1, script: s, resume: make(chan struct{})})
 	}
 	w.ctl = c
+	w.Store.setHook(c.onHook) // store.enter / store.exit (no-ops for goroutines that are not actors)
 	return c
 }
 
@@ -173,6 +175,15 @@ func (c *Controller) Trace() []Record { return c.trace }
 func (c *Controller) onHook(point string, args ...interface{}) {
 	if point == "commit.published" {
 		c.published.Add(1)
+		if c.Free {
+			// which actor published (stress mode registers its goroutines too)
+			gid := curGID()
+			c.mu.Lock()
+			if a := c.byGID[gid]; a != nil {
+				atomic.AddInt64(&a.pubs, 1)
+			}
+			c.mu.Unlock()
+		}
 	}
 	if c.Free {
 		// stress mode: perturb the timing only
@@ -202,6 +213,9 @@ func (c *Controller) onHook(point string, args ...interface{}) {
 	if a == nil {
 		c.mu.Unlock()
 		return
+	}
+	if point == "commit.published" {
+		atomic.AddInt64(&a.pubs, 1)
 	}
 	cp := make([]interface{}, len(args))
 	copy(cp, args)
